@@ -1,5 +1,50 @@
-(* Property C09 — placeholder until NegoPduProofs is written *)
-From PND Require Import Lib.Base Model.Negotiation Proofs.NegotiationProofs.
-Theorem C09_ids : forall cfg ps, map an_id (answers cfg ps) = map p_id ps.
+(* Property C09 — the acceptor answers every proposed presentation context correctly.
+   accept_pdu is AssociationAcceptor.accept on PDU values; `answers`, `answer_one`, `served_table` are
+   its abstract content.  For EVERY entity configuration (any set of served abstract syntaxes, any set
+   of supported transfer syntaxes) and EVERY request (any number of proposed contexts): *)
+From PND Require Import Lib.Base Model.Pdu Model.Negotiation Model.NegoPdu Corr.CorrNego
+  Proofs.NegotiationProofs Proofs.NegoPduProofs.
+
+(* the reply answers the proposed contexts — once each, in the proposed order (the list of answers IS
+   the map of answer_one over the proposals) — and repeats the AE titles and the application context;
+   the contexts served afterwards are computed from the same answers *)
+Theorem C09_reply_shape : forall cfg own rq m, accept_pdu cfg own rq = Some m ->
+  exists props,
+    map_opt proposal_of (middle (items_of rq)) = Some props
+    /\ map_opt answer_of (middle (items_of (acc_pdu m))) = Some (answers cfg props)
+    /\ acc_table m = served_table props (answers cfg props)
+    /\ called_of (acc_pdu m) = called_of rq /\ calling_of (acc_pdu m) = calling_of rq
+    /\ hd_error (items_of (acc_pdu m)) = hd_error (items_of rq).
+Proof. exact accept_pdu_spec. Qed.
+Print Assumptions C09_reply_shape.
+
+Theorem C09_same_ids_same_order : forall cfg ps, map an_id (answers cfg ps) = map p_id ps.
 Proof. exact answers_ids. Qed.
-Print Assumptions C09_ids.
+Print Assumptions C09_same_ids_same_order.
+
+(* accepted iff served as SCP and some proposed transfer syntax is supported; the returned transfer
+   syntax was proposed for that context and is supported; a refusal carries result 1 *)
+Theorem C09_each_answer : forall cfg p,
+  an_id (answer_one cfg p) = p_id p
+  /\ (an_result (answer_one cfg p) = 0 <-> acceptable cfg p)
+  /\ (an_result (answer_one cfg p) = 0 ->
+        In (an_ts (answer_one cfg p)) (p_tss p) /\ In (an_ts (answer_one cfg p)) (a_ts cfg))
+  /\ (an_result (answer_one cfg p) <> 0 -> an_result (answer_one cfg p) = 1).
+Proof. exact answer_one_spec. Qed.
+Print Assumptions C09_each_answer.
+
+(* the contexts the acceptor will subsequently serve are exactly those it reported as accepted, with
+   the same transfer syntax *)
+Theorem C09_served_is_accepted : forall cfg ps id abs ts,
+  In (id, abs, ts) (served_table ps (answers cfg ps)) <->
+  exists p, In p ps /\ p_id p = id /\ p_abs p = abs /\ an_result (answer_one cfg p) = 0
+            /\ an_ts (answer_one cfg p) = ts.
+Proof. exact served_table_spec. Qed.
+Print Assumptions C09_served_is_accepted.
+
+(* non-vacuity *)
+Example C09_example :
+  answers (mkacfg [[1]; [2]] [[7]; [8]])
+          [mkprop 1 [1] [[9]; [8]; [7]]; mkprop 3 [5] [[7]]; mkprop 5 [2] [[9]]]
+  = [mkans 1 0 [8]; mkans 3 1 []; mkans 5 1 []].
+Proof. reflexivity. Qed.
